@@ -123,6 +123,9 @@ type Chain struct {
 	InitialH int64
 
 	Halted string
+
+	prev     *Chain // the instance before the last export/restart (reads of old versions)
+	Restarts int
 }
 
 func mustJSON(v interface{}) []byte {
@@ -406,10 +409,11 @@ func (c *Chain) Crash() (same bool, detail string) {
 		c.InBlock = false
 	}
 	c.App = NewApp(c.DB)
-	if c.App.LastBlockHeight() != c.Height && !(c.Height == 0 && c.App.LastBlockHeight() == 0) {
+	fresh := c.Height == c.InitialH-1 // nothing committed by this instance yet (genesis, or just restarted from an export)
+	if c.App.LastBlockHeight() != c.Height && !(fresh && c.App.LastBlockHeight() == 0) {
 		return false, fmt.Sprintf("restart height %d != %d", c.App.LastBlockHeight(), c.Height)
 	}
-	if c.Height == 0 {
+	if fresh {
 		// nothing committed yet: InitChain is replayed
 		c.guard("InitChain", func() { c.App.InitChain(c.Genesis) })
 	}
@@ -452,6 +456,10 @@ func (c *Chain) ReadCtx() sdk.Context {
 	var ctx sdk.Context
 	if c.InBlock {
 		ctx = c.App.BaseApp.NewContext(false, c.CurHdr)
+	} else if c.Height == c.InitialH-1 && c.Height > 0 {
+		// nothing committed by this instance yet (just restarted from an export): the imported state is
+		// in the deliver state InitChain left behind
+		ctx = c.App.BaseApp.NewContext(false, tmproto.Header{ChainID: c.Cfg.ChainID, Height: c.InitialH, Time: c.LastTime, ProposerAddress: c.ValSet.Validators[0].Address})
 	} else {
 		hdr := c.CurHdr
 		if hdr.Height == 0 {
